@@ -2075,6 +2075,29 @@ pub fn g_str_diagram(w: &mut W, rng: &mut Rng, n_random: u64) {
         headers.push(format!("{}{}3g", ws, ws));
         headers.push(format!("x{}3g", ws));
     }
+    // move numbers written with digits of every UTF-8 width (ASCII 1 byte, Arabic-Indic 2, Devanagari / fullwidth 3,
+    // mathematical 4), runs of 1..40 digits, mixed and unmixed, with and without a side letter
+    {
+        let classes: [u32; 5] = [0x30, 0x660, 0x966, 0xFF10, 0x1D7CE];
+        for len in 1..=40usize {
+            for variant in 0..6u64 {
+                let mut num = String::new();
+                for i in 0..len {
+                    let cl = match variant {
+                        0 => 1,
+                        1 => 2,
+                        2 => 3,
+                        3 => 4,
+                        4 => if i == 0 { 0 } else { 1 + (i % 4) },
+                        _ => rng.below(5) as usize,
+                    };
+                    num.push(char::from_u32(classes[cl] + rng.below(10) as u32).unwrap());
+                }
+                let side = ["g", "s", "w", "b", ""][rng.below(5) as usize];
+                headers.push(format!("{}{}", num, side));
+            }
+        }
+    }
     for h in &headers {
         q_case(w, 4, &assemble(h, &rows));
     }
